@@ -331,6 +331,8 @@ func checkMatchFile(name string, tagList []string, st *stats) []kit.V {
 	return vs
 }
 
+var warmTags = append(subsets([]string{"linux", "android", "amd64", "foo"}), []string{"*"}, []string{"*", "linux"}, []string{"ignore"}, []string{"windows", "arm"})
+
 func subsets(base []string) [][]string {
 	var out [][]string
 	for m := 0; m < 1<<uint(len(base)); m++ {
@@ -351,6 +353,19 @@ func main() {
 		var c kase
 		if err := json.Unmarshal(raw, &c); err != nil {
 			kit.Harness("bad case: %v", err)
+		}
+		// the functions are pure; should an implementation remember answers between
+		// calls (keyed by too little), the case needs its history: the same input is
+		// first evaluated under the other tag sets, as in the main pass
+		for _, ts := range warmTags {
+			func() {
+				defer func() { recover() }()
+				if c.Kind == "matchfile" {
+					imports.MatchFile(c.Name, tagMap(ts))
+				} else {
+					imports.ShouldBuild([]byte(c.Content), tagMap(ts))
+				}
+			}()
 		}
 		if c.Kind == "matchfile" {
 			return checkMatchFile(c.Name, c.Tags, nil)
